@@ -712,6 +712,8 @@ def main(tier):
     import stridecover
     rep.attempt(stridecover.check, rep, 'DEFLATE', {'igzip_deflate', 'igzip_histogram', 'igzip_set_long', 'igzip_encode_df', 'igzip_hash'}, 100, lookahead=True)
     import c04
+    import c07
+    rep.attempt(c07.check_hist_keep, rep, llir.library('default'))   # matches against history that was not kept decode to other bytes
     rep.attempt(c04.check_adler, rep)          # zlib trailers: "accepting the trailer" rests on the Adler-32 kernels' constants and overflow schedule
     for c in CONFIGS:
         lay = hufftables_layout(c)
